@@ -215,19 +215,49 @@ func (Engine) Run(c *simkit.Choices, x *simkit.Ctx) *simkit.Violation {
 
 	tryWrite := func(cuts []int) *simkit.Violation {
 		st.Eval(1)
+		x.Alive()
 		note("write", cuts)
 		return compare(refWrite, r.exec("write", cuts, nil, false), sc("write", cuts, nil, false))
 	}
 
 	n := len(data)
-	// every single cut position
-	for p := 1; p < n; p++ {
-		if v := tryWrite([]int{p}); v != nil {
-			return v
+	if n <= 1500 {
+		// every single cut position
+		for p := 1; p < n; p++ {
+			if v := tryWrite([]int{p}); v != nil {
+				return v
+			}
 		}
+	} else {
+		// long documents: 300 single cuts, half aimed at tokens (heads,
+		// lengths, the first and last bytes of long strings), half uniform
+		ncuts := 300
+		if n > 20000 {
+			ncuts = 60
+		}
+		for i := 0; i < ncuts; i++ {
+			p := 1 + c.N(n-1)
+			if !mutated && len(doc.Tokens) > 0 && i%2 == 0 {
+				t := doc.Tokens[c.N(len(doc.Tokens))]
+				p = t.S + c.N(4)
+				if c.Bool() {
+					p = t.E - 2 + c.N(4)
+				}
+				if p < 1 {
+					p = 1
+				}
+				if p >= n {
+					p = n - 1
+				}
+			}
+			if v := tryWrite([]int{p}); v != nil {
+				return v
+			}
+		}
+		st.Probe("long-document-sampled-cuts")
 	}
 	// all one-byte chunks
-	if n > 1 {
+	if n > 1 && n <= 20000 {
 		all := make([]int, 0, n-1)
 		for p := 1; p < n; p++ {
 			all = append(all, p)
